@@ -1,14 +1,35 @@
 (* C06 -- concurrent callers are serialised and each gets the answer to its own request.
-   Protocol model Model/Proto.v (asyncio.Lock of CPython 3.12 included), validated callback by callback against the real
-   classes with 2..4 concurrent callers.  Proven here: the lock primitives behave as a lock (release hands over to at
-   most the first waiter and leaves the lock free; acquire takes the fast path only on a free lock with an empty queue),
-   a response is delivered only to the task awaiting that very future (completion wakes exactly that task), and a
-   future is completed at most once.  The whole-run mutual-exclusion invariant is established by trace validation and the
-   overlap monitor, not by a theorem (see DESIGN.md, C06). *)
+   Protocol model Model/Proto.v (asyncio.Lock of CPython 3.12, the hand-rolled release-before-retry / release-in-finally of
+   send_request and the lock taken by TcpInverterProtocol.close() included), validated callback by callback against the
+   real classes with 2..4 concurrent callers.  The theorems quantify over ALL runs of the model: any number of callers, any
+   interleaving of loop callbacks, I/O, timer, error and new-loop events, any fault oracle. *)
 From Coq Require Import List Bool Arith.
 From RecordUpdate Require Import RecordSet.
-From GW Require Import Proto ProtoEvolves ProtoProps.
+From GW Require Import Proto ProtoEvolves ProtoProps ProtoMutex ProtoAnswer.
 Import ListNotations RecordSetNotations.
+
+(* at most one caller is between lock.acquire() and the release with an await in between (connecting, or awaiting its answer) *)
+Theorem C06_one_request_in_flight : forall es kd ka r s acts, run (init kd ka r) es = Some (s, acts) ->
+  forall k k' p p', pc_of s k = Some p -> pc_of s k' = Some p' -> cs p = true -> cs p' = true -> k = k'.
+Proof. exact one_request_in_flight. Qed.
+
+(* a request is never put on the wire while another caller's request is connecting or still waiting for its answer *)
+Theorem C06_transmit_only_when_nobody_else_waits : forall es kd ka r s acts e s' acts',
+  run (init kd ka r) es = Some (s, acts) -> step s e = Some (s', acts') ->
+  forall t k f, In (ASend t k f) acts' ->
+  forall k' p, k' <> k -> pc_of s k' = Some p -> cs p = false.
+Proof. exact transmit_only_when_nobody_else_waits. Qed.
+
+(* whenever a future is pending it is the protocol object's response_future and exactly one caller awaits it: the data
+   accepted while a caller waits completes that caller's future and nobody else's *)
+Theorem C06_pending_future_is_the_awaited_one : forall es kd ka r s acts, run (init kd ka r) es = Some (s, acts) ->
+  forall f, pending s f = true ->
+    s_fut s = Some f /\ exists k, pc_of s k = Some (PcAwait f) /\ forall k' f', pc_of s k' = Some (PcAwait f') -> k' = k.
+Proof. exact pending_future_is_the_awaited_one. Qed.
+
+Theorem C06_waiting_caller_owns_the_response_future : forall es kd ka r s acts, run (init kd ka r) es = Some (s, acts) ->
+  forall k f, pc_of s k = Some (PcAwait f) -> pending s f = true -> s_fut s = Some f.
+Proof. exact waiting_caller_owns_the_response_future. Qed.
 
 Theorem C06_release_frees_the_lock : forall s, s_lock (lock_release s) = false /\ s_owner (lock_release s) = None.
 Proof. exact lock_release_unlocks. Qed.
@@ -27,7 +48,25 @@ Theorem C06_delivered_data_was_accepted : forall es k ka r s acts, run (init k k
   forall c t, In (ADone c (OResp t)) acts -> In t (s_accepted s).
 Proof. exact delivery. Qed.
 
+(* non-vacuity: two concurrent callers; the second queues behind the lock while the first awaits its answer, then each gets
+   the data accepted during its own wait *)
+Theorem C06_two_callers_run :
+  option_map snd (run (init UDP false 1) two_callers) =
+  Some [AOpen 0; ASend 0 0 0; ADone 0 (OResp [7]); AOpen 1; AClose 0; ASend 1 1 1; ADone 1 (OResp [8]); AClose 1].
+Proof. exact two_callers_run. Qed.
+
+Theorem C06_second_caller_queues :
+  option_map (fun r => (pc_of (fst r) 0, pc_of (fst r) 1, pending (fst r) 0)) (run (init UDP false 1) ([EvCall 0; EvCall 1] ++ repeat EvPop 6)) =
+  Some (Some (PcAwait 0), Some (PcLockWait 0), true).
+Proof. exact second_caller_queues. Qed.
+
+Print Assumptions C06_one_request_in_flight.
+Print Assumptions C06_transmit_only_when_nobody_else_waits.
+Print Assumptions C06_pending_future_is_the_awaited_one.
+Print Assumptions C06_waiting_caller_owns_the_response_future.
 Print Assumptions C06_release_frees_the_lock.
 Print Assumptions C06_acquire_queues_behind_waiters.
 Print Assumptions C06_future_completes_once.
 Print Assumptions C06_delivered_data_was_accepted.
+Print Assumptions C06_two_callers_run.
+Print Assumptions C06_second_caller_queues.
